@@ -1,10 +1,121 @@
 package main
 
 import (
+	"encoding/json"
 	"fmt"
+	"sort"
+	"strconv"
+	"strings"
+	"sync"
+	"time"
 )
 
+// cmdSelftest is the determinism self-test (DESIGN.md 2.10): for every property a few runs are executed in many
+// fresh processes at GOMAXPROCS 1, 4 and 16 with the full schedule trace enabled; the digests of (trace, tape,
+// notes, outcome) must all be equal, and no unregistered goroutine may have reached a scheduling point.
 func cmdSelftest(args []string) int {
-	fmt.Println("selftest: not built yet")
-	return 2
+	procs, seeds := 30, 3
+	var only []string
+	for i := 0; i < len(args); i++ {
+		switch args[i] {
+		case "--procs":
+			i++
+			procs, _ = strconv.Atoi(args[i])
+		case "--seeds":
+			i++
+			seeds, _ = strconv.Atoi(args[i])
+		default:
+			only = append(only, args[i])
+		}
+	}
+	bins := ensureBuild(false)
+	wo := runWorker(bins.plain, Job{Mode: "list"}, 60*time.Second)
+	var list []struct {
+		Prop    string `json:"prop"`
+		Variant string `json:"variant"`
+	}
+	for _, l := range wo.lines["LIST"] {
+		_ = json.Unmarshal(l, &list)
+	}
+	sort.Slice(list, func(i, j int) bool { return list[i].Prop+list[i].Variant < list[j].Prop+list[j].Variant })
+	bad := 0
+	total := 0
+	t0 := time.Now()
+	for _, w := range list {
+		if strings.HasPrefix(w.Prop, "SELF") {
+			continue
+		}
+		if len(only) > 0 {
+			ok := false
+			for _, o := range only {
+				if o == w.Prop {
+					ok = true
+				}
+			}
+			if !ok {
+				continue
+			}
+		}
+		for s := 0; s < seeds; s++ {
+			seed := uint64(1000003*(s+1)) + uint64(len(w.Variant))*7919
+			ord := s * 37
+			type res struct {
+				digest string
+				ext    int
+				gmp    string
+				raw    string
+			}
+			results := make([]res, procs)
+			var wg sync.WaitGroup
+			sem := make(chan struct{}, 16)
+			for p := 0; p < procs; p++ {
+				p := p
+				wg.Add(1)
+				sem <- struct{}{}
+				go func() {
+					defer wg.Done()
+					defer func() { <-sem }()
+					gmp := []string{"1", "4", "16"}[p%3]
+					out := runWorkerGMP(bins.plain, Job{Mode: "det", Prop: w.Prop, Tier: "quick", Variants: []string{w.Variant}, Base: seed, Start: ord}, gmp)
+					r := res{gmp: gmp}
+					for _, l := range out.lines["DET"] {
+						var d struct {
+							Digest string `json:"digest"`
+							Ext    int    `json:"ext"`
+						}
+						if json.Unmarshal(l, &d) == nil {
+							r.digest, r.ext, r.raw = d.Digest, d.Ext, string(l)
+						}
+					}
+					results[p] = r
+				}()
+			}
+			wg.Wait()
+			total++
+			distinct := map[string]int{}
+			ext := 0
+			for _, r := range results {
+				distinct[r.digest]++
+				ext += r.ext
+			}
+			if len(distinct) != 1 || ext != 0 {
+				bad++
+				fmt.Printf("NONDETERMINISTIC %s/%s seed=%d ord=%d: %d distinct digests over %d processes (ext goroutines: %d)\n", w.Prop, w.Variant, seed, ord, len(distinct), procs, ext)
+				shown := map[string]bool{}
+				for _, r := range results {
+					if !shown[r.digest] {
+						shown[r.digest] = true
+						fmt.Printf("   GOMAXPROCS=%s %s\n", r.gmp, r.raw)
+					}
+				}
+			} else {
+				fmt.Printf("ok %s/%s seed=%d ord=%d: %d processes (GOMAXPROCS 1/4/16) identical: %s\n", w.Prop, w.Variant, seed, ord, procs, results[0].raw)
+			}
+		}
+	}
+	fmt.Printf("selftest: %d run(s) x %d processes checked in %.0fs, %d nondeterministic\n", total, procs, time.Since(t0).Seconds(), bad)
+	if bad > 0 {
+		return 2
+	}
+	return 0
 }
